@@ -23,6 +23,7 @@ type SolverStats struct {
 	Nanos                       int64
 	Escalated                   int64
 	EscSat, EscUnsat, EscUnk    int64
+	IntRescued                  int64 // feasibility queries unknown as bit-vectors, decided in integer mode
 	CrossChecked, CrossDiffs    int64
 	IntBlast                    int64
 	IntMode, IntModeRefused     int64
@@ -31,16 +32,16 @@ type SolverStats struct {
 var gstats SolverStats
 
 type Solver struct {
-	cmd      *exec.Cmd
-	in       io.WriteCloser
-	out      *bufio.Reader
-	defined  map[*Term]bool
-	asserted []*Term
-	buf      bytes.Buffer
-	marker   int
-	dead     bool
-	bin      string
-	frames   []solverFrame
+	cmd          *exec.Cmd
+	in           io.WriteCloser
+	out          *bufio.Reader
+	defined      map[*Term]bool
+	asserted     []*Term
+	buf          bytes.Buffer
+	marker       int
+	dead         bool
+	bin          string
+	frames       []solverFrame
 	curTimeoutMs int
 	flattened    int // number of innermost open frames that exist only on our side
 }
@@ -73,7 +74,6 @@ func (s *Solver) Pop() {
 	}
 	s.asserted = s.asserted[:f.nAsserted]
 }
-
 
 var solverBin = func() string {
 	if b := os.Getenv("SYMGO_SOLVER"); b != "" {
